@@ -115,6 +115,27 @@ def run(rep):
         return "scaled" if m["depth"] == 16 and opts.get("bd", "1") == "1" else "eq"
     c01.oracle(rep, cs2, out, expect, "C15",
                "with --scale16 the output is not the input with every sample rounded to nearest (16-bit) / is not identical (other depths)")
+    # (e) end to end on files that carry metadata about the samples (sBIT - significant bits, here 8 of 16 -, gAMA, bKGD, pHYs ...):
+    #     such chunks describe the samples, they do not license another rounding; byte patterns that make truncation and rounding differ
+    import chunkgen
+    cs3 = vlib.Cases()
+    for k in range(24 if quick else 300):
+        ct = (0, 2, 4, 6)[k % 4]
+        ch = pg.CHANNELS[ct]
+        name = list(pats)[k % len(pats)]
+        f = pats[name]
+        w, h = 12, 9
+        px = [[tuple(f((y * 12 + x * 7 + 37 * c + k) % 256, rng) for c in range(ch)) for x in range(w)] for y in range(h)]
+        tok = pg.img_token(w, h, ct, 16, False, None, pg.pack_image(px, w, h, ct, 16, False))
+        pre = [(b"sBIT", bytes([8] * {0: 1, 2: 3, 4: 2, 6: 4}[ct]))] if k % 3 != 2 else [(b"sBIT", bytes([rng.choice([1, 4, 7, 8, 12, 16])] * {0: 1, 2: 3, 4: 2, 6: 4}[ct]))]
+        if k % 2:
+            pre.append((b"gAMA", (45455).to_bytes(4, "big")))
+        png = e2e.png_from_token(rng, tok, pre=pre)
+        o = "scale16=1" + rng.choice(["", ",preset=0", ",preset=3", ",strip=safe", ",interlace=1"])
+        cs3.add(f"optlog {o} - {png.hex()}", png=png, opts=o, ct=ct, depth=16, il=False, cls="pattern:" + name, orig=png, step=0)
+    out3 = e2e.run_pairs(rep, cs3, "optimize_from_memory --scale16 (files with sBIT)")
+    c01.oracle(rep, cs3, out3, lambda m: "scaled", "C15",
+               "with --scale16 on a file that carries sBIT the output is not the input with every sample rounded to nearest")
     rep.sample("scale8_all -> " + vlib.short(r, 80))
 
 
